@@ -1,6 +1,12 @@
 package main
 
 func init() {
+	// CrcBound(k): checksummed data of symbolic length < k is case-split by length; longer
+	// data gets the range-UF over-approximation (k = 0 restores the ConcBound default).
+	symNatives["CrcBound"] = func(m *Machine, fr *frame, a []Value) Value {
+		m.crcBound = int(m.mustConst(a[0], "CrcBound")) + 1
+		return nil
+	}
 	symNatives["LoopBound"] = func(m *Machine, fr *frame, a []Value) Value {
 		s, _ := m.strVal(a[0]).(string)
 		m.loopBounds = append(m.loopBounds, loopBound{substr: s, k: int(m.mustConst(a[1], "LoopBound k")), onCut: a[2]})
